@@ -26,6 +26,7 @@ From MWF Require Import Base.Util Base.UtilLemmas Exec.ExecBase Exec.ExecGen Exe
 
 Definition st_fc (v : State) : Prop := v = FAILED \/ v = CANCELLED \/ v = TIMEDOUT.
 Definition st_done (v : State) : Prop := v = FINISHED \/ v = DRYRUN.
+Definition fc_status (v : State) : Prop := v = FAILED \/ v = CANCELLED.
 
 Record Ext (g : graph) (t : st) : Prop := {
   e_rl : forall x, 0 < rlimit (attr g x) -> restarts (getrec t x) <= rlimit (attr g x);
